@@ -62,6 +62,7 @@ theorem finishReal_end (c : List Nat) (e : Nat) (neg : Bool) (num off tmp start 
       realResult neg num ep10 (netExp fo 0 false f).1 (netExp fo 0 false f).2 off := by
   rw [finishReal, tailLoop_stop c e num off hasDot dotOff hoff hend]
   simp only [hep, hen]
+  rw [if_neg (by omega)]
   have hadj : adjustExponent fo off dotOff f ⟨off, hasDot, dotOff, 0, 0, false⟩ = netExp fo 0 false f := by
     unfold adjustExponent netExp
     simp only [ne_eq, not_true_eq_false, and_false, if_false, Bool.false_eq_true, Bool.false_and, ge_iff_le]
@@ -99,6 +100,7 @@ theorem finishReal_exp (c : List Nat) (e : Nat) (neg : Bool) (num off tmp start 
     | cons a b => simp
   rw [finishReal, htail]
   simp only [hep, hen]
+  rw [if_neg (by omega)]
   generalize decVal ks = k at *
   generalize decide (es = [45]) = kneg
   have hadj : adjustExponent fo off dotOff f ⟨off + 1 + es.length + ks.length, hasDot, dotOff, off, k, kneg⟩ =
